@@ -223,6 +223,33 @@ pub fn measure_pulse(spectrum: &[f64], stage: usize, use_log_gain: bool, rate: u
     }
 }
 
+/// Unit-pulse response measured on the FIRST pulse after `n_unvoiced` unvoiced frames of the same
+/// stationary spectrum. The same sequence is rendered twice, with the voiced frame at 20 Hz and at
+/// 40 Hz: the noise tails of the unvoiced frames are identical in both runs (same noise source,
+/// same coefficient trajectory) and cancel in the difference, which leaves
+/// (sqrt(T0_20) - sqrt(T0_40)) x the response to the pulse on the voiced frame's first sample, up to
+/// the second 40-Hz pulse. Returns the normalised response (rate/40 - 2 samples).
+#[allow(clippy::too_many_arguments)]
+pub fn measure_pulse_after_unvoiced(spectrum: &[f64], stage: usize, use_log_gain: bool, rate: usize, alpha: f64, beta: f64, n_unvoiced: usize) -> Vec<f64> {
+    let p20 = period20(rate);
+    let fperiod = p20.floor() as usize - 2;
+    let run = |lf0: f64| -> Vec<f64> {
+        let mut v = Vocoder::new(spectrum.len(), 0, stage, use_log_gain, rate, alpha, beta, 1.0, fperiod);
+        let mut buf = vec![0.0; fperiod];
+        for _ in 0..n_unvoiced {
+            v.synthesize(-1e10, spectrum, &[], &mut buf);
+        }
+        v.synthesize(lf0, spectrum, &[], &mut buf);
+        buf
+    };
+    let a = run(20f64.ln());
+    let b = run(40f64.ln());
+    let p40 = rate as f64 / 40f64.ln().exp();
+    let n = (p40.floor() as usize).saturating_sub(2).min(fperiod);
+    let d = p20.sqrt() - p40.sqrt();
+    (0..n).map(|i| (a[i] - b[i]) / d).collect()
+}
+
 #[cfg(test)]
 mod tests {
     use super::*;
